@@ -277,11 +277,11 @@ PROPS["C06"]["rules"] = PROPS["C06"]["rules"] + [(lambda ctx: rules_ref.rule_ino
 PROPS["C06"]["explanation"] = PROPS["C06"]["explanation"].replace(" Not decided: that callers", " (INOUT) the number type that hdf_check_nt normalises in place (native / little-endian flavour of a DFSD-era dataset or dimension scale) is read again by its caller after the call, i.e. the normalised flavour is the one that is kept. Not decided: that other callers")
 
 PROPS["C05"]["rules"] = PROPS["C05"]["rules"] + [rules_gr.rule_signext_symmetry]
-PROPS["C05"]["explanation"] += " (BITFLUSH) the bit buffer is written back only in write mode. (SIGNSYM) the two sign-extension arms of the n-bit decoder (fill with ones / fill with zeroes) touch exactly the same bytes and bits."
+PROPS["C05"]["explanation"] += " (SEEKORIGIN) a seek routine that has made the offset absolute never forwards it together with the original origin (SEEKRESET: a coder seek re-initialises or resets its cursors). (BITFLUSH) the bit buffer is written back only in write mode. (SIGNSYM) the two sign-extension arms of the n-bit decoder (fill with ones / fill with zeroes) touch exactly the same bytes and bits."
 
 PROPS["C04"]["rules"] = PROPS["C04"]["rules"] + [rules_ref.rule_converted_value_used, rules_ref.rule_seek_resets_cursor]
 PROPS["C04"]["explanation"] = PROPS["C04"]["explanation"].replace(" Not decided (value-level", " (CONVUSED) wherever DFKconvert writes into a local buffer (e.g. the fill value handed to HMCcreate by SDsetchunk), something other than free() consumes that buffer afterwards; (SEEKRESET) every coder's seek either re-runs the coder's init routine or resets each cursor field of its state, so a read after a seek never continues from a stale decode buffer. Not decided (value-level")
-PROPS["C05"]["rules"] = PROPS["C05"]["rules"] + [rules_ref.rule_seek_resets_cursor]
+PROPS["C05"]["rules"] = PROPS["C05"]["rules"] + [rules_ref.rule_seek_resets_cursor, rules_ref.rule_seek_origin]
 PROPS["C06"]["rules"] = PROPS["C06"]["rules"] + [rules_ref.rule_converted_value_used]
 
 PROPS["C18"] = {
